@@ -2,6 +2,7 @@ import XProofs.LstsqNormal
 import XProofs.LeastSquares
 import XProofs.Limits
 import XProofs.FirstStep
+import XProofs.LstsqMinNorm
 import Mathlib.Tactic.FieldSimp
 /-!
 # C16 — the Newton step is the least-squares solution; scalings and Jacobians are consistent
@@ -54,6 +55,53 @@ theorem C16_min_norm {m n : Type} [Fintype m] [Fintype n] (A : Matrix m n K) (b 
     (hx : x = Aᵀ *ᵥ w) (hN : Aᵀ *ᵥ (A *ᵥ x) = Aᵀ *ᵥ b) (z : n → K) (hz : Aᵀ *ᵥ (A *ᵥ z) = Aᵀ *ᵥ b) :
     x ⬝ᵥ x ≤ z ⬝ᵥ z :=
   LS.minnorm_of_range A b x w hx hN z hz
+
+/-- the pieces composed: the value `lstsq` returns, `x = Vhᵀ diag(s_inv) Uᵀ b`, IS a minimum-norm least-squares
+    solution of the truncated matrix `A' = U diag(s restricted to the kept set) Vh`.  The kept set is
+    `{i | s_inv i ≠ 0}`; the truncation rule `hT` says every index is dropped (`s_inv i = 0`) or kept with
+    `s i ≠ 0` and `s_inv i = 1 / s i`.  (1) no `z` has a smaller residual; (2) no minimiser of the residual has
+    a smaller norm.  The row-space hypothesis of `C16_min_norm` is discharged inside
+    (`LstsqMinNorm.lstsq_rowSpace_kept`, `w = U diag(s_inv²) Uᵀ b`). -/
+theorem C16_lstsq_is_min_norm_least_squares {m n k : Type} [Fintype m] [Fintype n] [Fintype k] [DecidableEq k]
+    [DecidableEq m] [DecidableEq n] (U : Matrix m k K) (Vh : Matrix k n K) (s sinv : k → K) (b : m → K)
+    (hU : Uᵀ * U = 1) (hV : Vh * Vhᵀ = 1)
+    (hT : ∀ i, sinv i = 0 ∨ (s i ≠ 0 ∧ sinv i = (s i)⁻¹)) :
+    let A' := U * diagonal (fun i => if sinv i = 0 then 0 else s i) * Vh
+    let x := Vhᵀ *ᵥ (diagonal sinv *ᵥ (Uᵀ *ᵥ b))
+    (∀ z : n → K, (A' *ᵥ x - b) ⬝ᵥ (A' *ᵥ x - b) ≤ (A' *ᵥ z - b) ⬝ᵥ (A' *ᵥ z - b))
+    ∧ (∀ z : n → K, (∀ y : n → K, (A' *ᵥ z - b) ⬝ᵥ (A' *ᵥ z - b) ≤ (A' *ᵥ y - b) ⬝ᵥ (A' *ᵥ y - b)) →
+        x ⬝ᵥ x ≤ z ⬝ᵥ z) := by
+  intro A' x
+  exact LstsqMinNorm.lstsq_isMinNormLeastSq U Vh s sinv b hU hV hT
+
+/-- uniqueness: a minimiser of the residual of `A'` whose norm does not exceed that of the `lstsq` value IS the
+    `lstsq` value — it is THE minimum-norm least-squares solution -/
+theorem C16_lstsq_min_norm_unique {m n k : Type} [Fintype m] [Fintype n] [Fintype k] [DecidableEq k]
+    [DecidableEq m] [DecidableEq n] (U : Matrix m k K) (Vh : Matrix k n K) (s sinv : k → K) (b : m → K)
+    (hU : Uᵀ * U = 1) (hV : Vh * Vhᵀ = 1)
+    (hT : ∀ i, sinv i = 0 ∨ (s i ≠ 0 ∧ sinv i = (s i)⁻¹)) :
+    let A' := U * diagonal (fun i => if sinv i = 0 then 0 else s i) * Vh
+    let x := Vhᵀ *ᵥ (diagonal sinv *ᵥ (Uᵀ *ᵥ b))
+    ∀ z : n → K, (∀ y : n → K, (A' *ᵥ z - b) ⬝ᵥ (A' *ᵥ z - b) ≤ (A' *ᵥ y - b) ⬝ᵥ (A' *ᵥ y - b)) →
+      z ⬝ᵥ z ≤ x ⬝ᵥ x → z = x := by
+  intro A' x z hz hle
+  exact LstsqMinNorm.lstsq_unique_of_norm_le U Vh s sinv b hU hV hT z hz hle
+
+omit [IsStrictOrderedRing K] in
+/-- what the code computes (`s_inv[s > 0] = 1 / s[s > 0]`, then `s_inv[s < c] = 0`, `c = rcond * s[0]`) obeys
+    the truncation rule of the two theorems above, for any cut `c` -/
+theorem C16_sinv_rcond_rule {k : Type} (s : k → K) (c : K) :
+    let sinv := fun i => if 0 < s i ∧ ¬ s i < c then 1 / s i else 0
+    ∀ i, sinv i = 0 ∨ (s i ≠ 0 ∧ sinv i = (s i)⁻¹) := by
+  intro sinv
+  exact LstsqMinNorm.truncRule_of_rcond s c
+
+omit [IsStrictOrderedRing K] in
+/-- when only exact zeros are dropped the truncated matrix is the matrix itself -/
+theorem C16_truncated_eq_self {m n k : Type} [Fintype k] [DecidableEq k]
+    (U : Matrix m k K) (Vh : Matrix k n K) (s sinv : k → K) (h0 : ∀ i, sinv i = 0 → s i = 0) :
+    U * diagonal (fun i => if sinv i = 0 then 0 else s i) * Vh = U * diagonal s * Vh :=
+  LstsqMinNorm.keptMatrix_eq_self U Vh s sinv h0
 
 /-- consistent linear problem (`f x = A x - b`, Jacobian `A`, `∃ xs, A xs = b`): one step `x0 - d` with `d` any
     solution of the normal equations of `A d = f x0` lands exactly on a solution, whatever the shape or rank
